@@ -418,6 +418,21 @@ def witness_search(ctx: Ctx, thorough: bool):
                 kind, got = h.outcome("create_ccsds_packet(data)", PK, data=bytes(ln))
                 if not (kind == "raise" and got == "ValueError"):
                     bad = f"{ln} data bytes are {'accepted' if kind == 'ok' else 'rejected with ' + str(got)}; must be rejected with ValueError"
+            # out-of-range values stay rejected whatever the other fields are (an oversized length must not hide in the bits of a
+            # neighbouring field that are already set; a negative field must not be cancelled by another one)
+            for ln, kw in ((65537, {"sequence_count": 1}), (65537, {"sequence_count": 16383, "apid": 2047, "sequence_flags": 3}),
+                           (131073, {"sequence_count": 3}), (65536 + 2 ** 16, {"sequence_count": 16383}), (0, {"sequence_count": 16383})):
+                args = ", ".join(f"{k}={v}" for k, v in kw.items())
+                kind, got = h.outcome(f"create_ccsds_packet(data, {args})", PK, data=bytes(ln))
+                if not (kind == "raise" and got == "ValueError"):
+                    bad = (f"{ln} data bytes with {args} are {'accepted' if kind == 'ok' else 'rejected with ' + str(got)}; "
+                           f"must be rejected with ValueError")
+            for kw in ({"apid": 2048, "sequence_count": 16383}, {"sequence_count": 16384, "sequence_flags": 3}, {"version_number": 8, "type": 1},
+                       {"sequence_flags": 4, "apid": 2047}, {"type": 2, "version_number": 7}, {"secondary_header_flag": 2, "type": 1}):
+                args = ", ".join(f"{k}={v}" for k, v in kw.items())
+                kind, got = h.outcome(f"create_ccsds_packet(b'xy', {args})", PK)
+                if not (kind == "raise" and got == "ValueError"):
+                    bad = f"{args} is {'accepted' if kind == 'ok' else 'rejected with ' + str(got)}; must be rejected with ValueError"
     except StepLimit as e:
         # one packet of at most 65542 bytes: a clean framer needs a few hundred interpreter steps (slices are native)
         bad = (f"constructing / re-framing a single packet ({n} cases in) does not finish within {h.it.max_steps} interpreter steps "
